@@ -84,7 +84,7 @@ impl<'a> WriteToHeader for Item<'a> {
 /// Materialised payload bytes of a value (empty for values without a blob).
 pub fn blob_bytes(v: &Val) -> Vec<u8> {
     match v {
-        Val::Bytes(b) | Val::TlvStruct(_, b) | Val::TlvTuple(_, b) | Val::TlvTupleType(_, b) | Val::Section(b) => b.bytes(),
+        Val::Bytes(b) | Val::TlvStruct(_, b) | Val::TlvTuple(_, b) | Val::TlvTupleType(_, b) | Val::Section(b) | Val::SectionAdv(b, _) => b.bytes(),
         _ => Vec::new(),
     }
 }
@@ -109,8 +109,18 @@ pub fn item<'a>(v: &Val, bytes: &'a [u8]) -> Item<'a> {
         Val::TlvTuple(k, _) => Item::Tuple(*k, bytes),
         Val::TlvTupleType(t, _) => Item::TupleT(TYPES[*t], bytes),
         Val::Section(_) => Item::Section(v2::TypeLengthValues::from(bytes)),
+        Val::SectionAdv(_, k) => Item::Section(advanced(bytes, *k)),
         Val::Type(t) => Item::Type(TYPES[*t]),
     }
+}
+
+/// A TLV section whose iterator has been advanced `k` times.
+pub fn advanced(bytes: &[u8], k: u8) -> v2::TypeLengthValues<'_> {
+    let mut t = v2::TypeLengthValues::from(bytes);
+    for _ in 0..k {
+        let _ = t.next();
+    }
+    t
 }
 
 /// write_payload with the value's own Rust type (not through `Item`).
@@ -135,11 +145,12 @@ fn write_val(b: Builder, v: &Val) -> io::Result<Builder> {
         Val::TlvTuple(k, _) => b.write_payload((*k, bytes.as_slice())),
         Val::TlvTupleType(t, _) => b.write_payload((TYPES[*t], bytes.as_slice())),
         Val::Section(_) => b.write_payload(v2::TypeLengthValues::from(bytes.as_slice())),
+        Val::SectionAdv(_, k) => b.write_payload(advanced(bytes.as_slice(), *k)),
         Val::Type(t) => b.write_payload(TYPES[*t]),
     }
 }
 
-fn apply(b: Builder, op: &Op) -> io::Result<Builder> {
+fn apply(b: Builder, op: &Op, variant: u64) -> io::Result<Builder> {
     match op {
         Op::Reserve(n) => Ok(b.reserve_capacity(*n)),
         Op::SetLength(Some(v)) => Ok(b.set_length(*v)),
@@ -150,7 +161,19 @@ fn apply(b: Builder, op: &Op) -> io::Result<Builder> {
         Op::Batch(vs) => {
             let store: Vec<Vec<u8>> = vs.iter().map(blob_bytes).collect();
             let items: Vec<Item<'_>> = vs.iter().zip(store.iter()).map(|(v, s)| item(v, s.as_slice())).collect();
-            b.write_payloads(items.iter())
+            // the same batch through iterators with different size hints
+            match variant % 4 {
+                0 => b.write_payloads(items.iter()),
+                1 => b.write_payloads(items.iter().filter(|_| true)),
+                2 => {
+                    let mut i = 0;
+                    b.write_payloads(std::iter::from_fn(|| {
+                        i += 1;
+                        items.get(i - 1)
+                    }))
+                }
+                _ => b.write_payloads(items.iter().collect::<Vec<_>>()),
+            }
         }
     }
 }
@@ -222,7 +245,7 @@ pub fn exec(h: &History, variant: u64, upto: usize, on_step: &mut dyn FnMut(usiz
     match guard(|| {
         let mut b = construct(&h.ctor, variant);
         for (i, op) in h.ops.iter().take(upto).enumerate() {
-            b = match apply(b, op) {
+            b = match apply(b, op, variant.wrapping_add(i as u64)) {
                 Ok(b) => b,
                 Err(e) => return Exec::FailedAt(i, format!("{:?}", e.kind())),
             };
